@@ -98,6 +98,7 @@ class Ledger:
         self.dead_holes = set()
         self.renamed = {}    # did -> original label
         self.ws_removed = set()   # holes with a data child removed through the workspace since the last re-open
+        self.dropped_pg_names = set()  # names of groups removed since the last re-open
 
     def clone(self):
         return copy.deepcopy(self)
@@ -202,6 +203,7 @@ class Ledger:
             self.dead_holes.add(h)
         elif k == "reopen":
             self.ws_removed = set()
+            self.dropped_pg_names = set()
 
     def _remove_data(self, did):
         d = self.data.pop(did)
@@ -219,6 +221,7 @@ class Ledger:
 
     def _drop_pg(self, pg):
         h = self.pgs[pg]["h"]
+        self.dropped_pg_names.add(self.pgs[pg]["name"])
         del self.pgs[pg]
         if h in self.holes and pg in self.holes[h]["pgs"]:
             self.holes[h]["pgs"].remove(pg)
@@ -301,6 +304,9 @@ def gen_case(rng, nops, version):
             else:
                 n = len(led.data[dep]["vals"])
                 m = n if rng.chance(65) else (rng.below(n + 1) if rng.chance(85) else n + 1)
+                earlier = led.holes[h]["pgs"][: led.holes[h]["pgs"].index(pg)]
+                if any(led.depth_of(p) is not None and led.data[led.depth_of(p)]["vals"] == led.data[dep]["vals"] for p in earlier):
+                    continue  # known defect: the data would land in the earlier, collocated group (corpus witness only)
                 emit({"op": "add_data", "h": h, "pg": pgname, "name": name, "pgid": fresh(), "depid": fresh(), "did": fresh(),
                       "depth": None, "vals": _vals(rng, m, 0)})
         elif kind == "set_values" and datas:
@@ -925,35 +931,60 @@ def _check_snapshot(led, sn, where, fails, readback=True):
 
 
 def _check_view(led, view, sn, where, fails):
-    """depth_table of group name P lists, for the holes that have the association label in Start-index order, the hole's data under
-    the table's column names (padded to the association length)."""
+    """Specification: the table of group name P lists, hole after hole (in the order of the depth rows), the depths of the
+    hole's group P and, for every data name occurring in a group P, the hole's values (no-data where the hole lacks it)."""
     if not isinstance(view, dict):
         return
     if "error" in view:
         fails.append({"key": "table-view-raises", "what": f"{where}: drillholes_tables raised {view['error']}"})
         return
-    for name, tab in view.items():
+    for pname in sorted({x["name"] for x in led.pgs.values()}):
+        groups = [p for p in led.pgs if led.pgs[p]["name"] == pname]
+        tab = view.get(f"pg{pname}")
+        if tab is None:
+            fails.append({"key": "table-view-missing", "what": f"{where}: no table for group name pg{pname}"})
+            continue
+        empty = [p for p in groups if led.depth_of(p) is None]
+        full = [p for p in groups if led.depth_of(p) is not None]
+        renamed = any(d in led.renamed for p in groups for d in led.pgs[p]["members"])
+        labels = {led.data[led.depth_of(p)]["name"] for p in full}
+        zero = any(r[1] == 0 for lab in labels for r in sn["tabs"].get(label_name(lab), {"rows": []})["rows"])
+        ragged = any(len(led.data[d]["vals"]) != len(led.data[led.depth_of(p)]["vals"]) for p in full for d in led.pgs[p]["members"])
         if "error" in tab:
-            fails.append({"key": "table-view-raises:" + tab["error"].split(":")[0], "what": f"{where}: depth_table of {name!r} raised {tab['error']}"})
+            typ = tab["error"].split(":")[0]
+            if typ == "AttributeError" and empty:
+                key = "table-view-raises-with-empty-group"
+            elif typ == "KeyError" and renamed:
+                key = "table-view-raises-after-rename"
+            elif typ in ("IndexError", "ValueError") and zero:
+                key = "table-view-raises-on-empty-depth"
+            elif typ == "AttributeError" and pname in led.dropped_pg_names:
+                key = "table-view-raises-with-removed-group"
+            else:
+                key = "table-view-raises:" + typ
+            fails.append({"key": key, "what": f"{where}: depth_table of pg{pname} raised {tab['error']}"})
             continue
+        if ragged or renamed or empty:
+            continue   # no expectation: a depth array was resized and not all members were rewritten yet / degenerate states reported elsewhere
         cols = tab["cols"][1:]
-        assoc = cols[0]
-        if assoc not in sn["tabs"]:
-            fails.append({"key": "table-view", "what": f"{where}: table {name!r} association {assoc!r} has no index"})
-            continue
-        order = [r[2] for r in sorted(sn["tabs"][assoc]["rows"], key=lambda r: r[0])]
+        assoc = cols[0] if cols else None
+        holes_p = {led.pgs[p]["h"]: p for p in full}
+        listed = [r[2] for r in sorted(sn["tabs"].get(assoc, {"rows": []})["rows"], key=lambda r: r[0])] if assoc else []
+        names = sorted({label_name(led.data[d]["name"]) for p in full for d in led.pgs[p]["members"]} - {assoc})
+        outside = any(label_name(led.data[d]["name"]) in names and led.data[d]["pg"] != holes_p[h]
+                      for h in holes_p for d in led.hole_data(h))
+        mixed = len(labels) > 1 or {label_name(x) for x in labels} != {assoc} or any(h not in holes_p for h in listed) or outside
         exp = []
-        for h in order:
-            by_name = {label_name(led.data[d]["name"]): led.data[d]["vals"] for d in led.hole_data(h)} if h in led.holes else {}
-            n = len(by_name.get(assoc, []))
-            for i in range(n):
-                row = [h]
-                for c in cols:
-                    v = by_name.get(c, [])
-                    row.append(v[i] if i < len(v) else None)
-                exp.append(row)
-        if tab["rows"] != exp:
-            fails.append({"key": "table-view", "what": f"{where}: depth_table {name!r} columns {cols} = {tab['rows']}, per-hole values give {exp}"})
+        for h in listed:
+            if h not in holes_p:
+                continue
+            p = holes_p[h]
+            by_name = {label_name(led.data[d]["name"]): led.data[d]["vals"] for d in led.pgs[p]["members"]}
+            for i in range(len(by_name.get(assoc, []))):
+                exp.append([h] + [(by_name[c][i] if c in by_name else None) for c in [assoc] + names])
+        if cols != [assoc] + names or tab["rows"] != exp:
+            key = "table-view-looks-up-by-name-not-by-group" if mixed else "table-view"
+            fails.append({"key": key, "what": f"{where}: depth_table pg{pname} columns {cols} rows {tab['rows']}; the holes' groups pg{pname} give columns {[assoc] + names} rows {exp}"})
 
 
 def oracle(case, obs):
@@ -986,12 +1017,25 @@ def oracle(case, obs):
         if got != exp:
             if got is not None and exp is None and op["op"] == "add_data" and "already present" in stp.get("msg", "") and "DEPTH" in stp.get("msg", ""):
                 fails.append({"key": "add-refused-depth-name-taken", "what": f"{where} {op} raised {got}: {stp.get('msg')}"})
+            elif (got == "ValueError" and exp is None and op["op"] == "add_data" and "already present" in stp.get("msg", "")
+                  and any(led.renamed.get(d) == 100 + op["name"] for d in led.hole_data(op["h"]))):
+                fails.append({"key": "rename-leaves-old-property-key", "what": f"{where} {op} raised {got}: {stp.get('msg')} (the name was freed by a rename)"})
             elif got is not None and exp is None:
                 fails.append({"key": "valid-operation-refused", "what": f"{where} {op} raised {got}: {stp.get('msg')}"})
             else:
                 fails.append({"key": "invalid-operation-accepted", "what": f"{where} {op}: expected {exp}, got {got}"})
             break
         before = led.clone()
+        if exp is None and op["op"] == "add_data" and op["depth"] is None:
+            pg = led.pg_by_name(op["h"], op["pg"])
+            dep = led.depth_of(pg)
+            earlier = led.holes[op["h"]]["pgs"][: led.holes[op["h"]]["pgs"].index(pg)]
+            twins = [p for p in earlier if led.depth_of(p) is not None and led.data[led.depth_of(p)]["vals"] == led.data[dep]["vals"]]
+            landed = [r["id"] for r in stp["snap"]["recs"] if r["kind"] == "pg" and op["did"] in r["members"]]
+            if twins and landed == [twins[0]]:
+                fails.append({"key": "add-to-group-lands-in-collocated-group",
+                              "what": f"{where} {op}: the data was added to group {twins[0]} (same depths) instead of the requested group {pg}"})
+                break
         if exp is None:
             led.apply(op)
             if op["op"] == "add_data" and op["depid"] in led.data and led.data[op["depid"]]["name"] is None:
